@@ -239,10 +239,6 @@ package flags
 
 //@ assumed func (x *multiTag) Get(key string) (r string)
 //@   pure
-//@ assumed func (option *Option) canArgument() (r bool)
-//@   pure
-//@ assumed func (option *Option) isValidValue(arg string) (err error)
-//@   pure
 //@ assumed func (option *Option) empty()
 //@ assumed func (option *Option) Set(value *string) (err error)
 //@   traced
@@ -621,4 +617,76 @@ package flags
 //@   loop 2 decreases i + 1
 //@   ensures[C07,C08] longOK(r.longNames) && shortOK(r.shortNames)
 //@   ensures[C08] forall(w, string, r.commands[w] != nil ==> subOf(r.commands[w], c) && answersTo(r.commands[w], w))
+//@   assigns nothing
+
+
+// ===================================================================
+// option.go: what kind of option is it (walks over the field's type)
+// ===================================================================
+
+//@ assumed func reflect.Type.Elem(t reflect.Type) (e reflect.Type)
+//@   pure
+//@ assumed func reflect.Type.NumIn(t reflect.Type) (n int)
+//@   pure
+//@   ensures n >= 0
+// Go types are finite: the element type of a slice/pointer type is smaller.
+//@ assumed func tdepth(t reflect.Type) (d int)
+//@   pure
+//@ axiom manual wf_type: forall t reflect.Type :: tdepth(t) >= 0 && tdepth(t.Elem()) < tdepth(t)
+
+// (pointer to / slice of)* bool, or a func without parameters
+//@ pure func boolType(t reflect.Type) bool = ite(t.Kind() == reflect.Slice || t.Kind() == reflect.Ptr, boolType(t.Elem()), ite(t.Kind() == reflect.Bool, true, ite(t.Kind() == reflect.Func, t.NumIn() == 0, false)))
+// (pointer to / slice of)* signed integer or float
+//@ pure func signedKind(k reflect.Kind) bool = k == reflect.Int || k == reflect.Int8 || k == reflect.Int16 || k == reflect.Int32 || k == reflect.Int64 || k == reflect.Float32 || k == reflect.Float64
+//@ pure func signedType(t reflect.Type) bool = ite(t.Kind() == reflect.Slice || t.Kind() == reflect.Ptr, signedType(t.Elem()), signedKind(t.Kind()))
+
+// What a user type implements is not decided here.
+//@ assumed func (option *Option) isUnmarshaler() (u Unmarshaler)
+//@   pure
+//@ assumed func (option *Option) isValueValidator() (v ValueValidator)
+//@   pure
+//@ assumed func ValueValidator.IsValidValue(v ValueValidator, value string) (err error)
+//@   pure
+//@   ensures is(err, *Error) ==> as(err, *Error) != nil
+
+//@ func (option *Option) isBool() (r bool)
+//@   props C01 C02 C19 C04
+//@   pure
+//@   requires option != nil
+//@   loop 1 invariant use(wf_type, tp) && unfold(boolType(tp)) && boolType(tp) == boolType(option.value.Type())
+//@   loop 1 decreases tdepth(tp)
+//@   ensures[C01,C02,C19] r == boolType(option.value.Type())
+//@   assigns nothing
+
+//@ func (option *Option) isSignedNumber() (r bool)
+//@   props C02 C04
+//@   pure
+//@   requires option != nil
+//@   loop 1 invariant use(wf_type, tp) && unfold(signedType(tp)) && signedType(tp) == signedType(option.value.Type())
+//@   loop 1 decreases tdepth(tp)
+//@   ensures[C02] r == signedType(option.value.Type())
+//@   assigns nothing
+
+//@ func (option *Option) isFunc() (r bool)
+//@   props C01 C04
+//@   requires option != nil
+//@   ensures r == (option.value.Type().Kind() == reflect.Func)
+//@   assigns nothing
+
+//@ func (option *Option) canArgument() (r bool)
+//@   props C01 C02 C04
+//@   pure
+//@   requires option != nil
+//@   ensures[C01,C02] r == (option.isUnmarshaler() != nil || !boolType(option.value.Type()))
+//@   assigns nothing
+
+// The separate-token form -x V / --name V is refused exactly when V has option
+// syntax, except for a negative number given to a signed numeric option.
+//@ func (option *Option) isValidValue(arg string) (err error)
+//@   props C02 C04
+//@   pure
+//@   requires option != nil
+//@   ensures[C02] option.isValueValidator() == nil ==> ((err == nil) == (!argumentIsOption(arg) || (signedType(option.value.Type()) && len(arg) > 1 && arg[0] == '-' && arg[1] >= '0' && arg[1] <= '9')))
+//@   ensures[C02] option.isValueValidator() != nil ==> err == option.isValueValidator().IsValidValue(arg)
+//@   ensures is(err, *Error) ==> as(err, *Error) != nil
 //@   assigns nothing
